@@ -649,7 +649,30 @@ class _NP:
         return _NP.concatenate(parts, 1)
 
     def __getattr__(self, name):
-        raise Unsupported(f"UNSUPPORTED numpy attribute np.{name} in traced code")
+        # a numpy function applied to concrete values only (shapes, counts, index arithmetic, constants) is plain execution
+        import numpy as real
+        f = getattr(real, name, None)
+        if f is None:
+            raise Unsupported(f"UNSUPPORTED numpy attribute np.{name} in traced code")
+        if not callable(f) or isinstance(f, type):
+            return f
+
+        def has_sym(x):
+            if isinstance(x, (E, SymMat)):
+                return True
+            if isinstance(x, (list, tuple)):
+                return any(has_sym(y) for y in x)
+            if isinstance(x, dict):
+                return any(has_sym(y) for y in x.values())
+            if isinstance(x, real.ndarray) and x.dtype == object:
+                return any(has_sym(y) for y in x.ravel().tolist())
+            return False
+
+        def concrete_only(*a, **kw):
+            if has_sym(a) or has_sym(kw):
+                raise Unsupported(f"UNSUPPORTED numpy function np.{name} of a symbolic value in traced code")
+            return f(*a, **kw)
+        return concrete_only
 
 
 NP = _NP()
